@@ -26,7 +26,9 @@ def c03(tier, seed):
     obs += units_verus.select(po, r"::CompInfo::is_packed::", None, keep_meta=False)
     so, scmd, slog, _ = units_verus.run_unit("bf_unit_start")
     obs += so
-    cmd = cmd + " ; " + vcmd + " ; " + lcmd + " ; " + pcmd + " ; " + scmd
+    ao, acmd, alog, _ = units_verus.run_unit("bf_accessors")
+    obs += ao
+    cmd = cmd + " ; " + vcmd + " ; " + lcmd + " ; " + pcmd + " ; " + scmd + " ; " + acmd
     prep = dict(prep, bf_alloc_unit=[dict(l, unit="bf_alloc") for l in vlog])
     meta = {
         "checker_cmd": cmd,
@@ -42,6 +44,7 @@ def c03(tier, seed):
             "bindgen/ir/comp.rs: bitfields_to_allocation_units (+ nested flush_allocation_unit), three contracts: (1) no clang offsets (class templates): every emitted bit-field satisfies the ABI placement rule, fields keep their order without overlap, offset_into_unit + width <= 8 * unit size; (2) clang offsets, every field ends at or after the earlier ones (structs): offset_into_unit + width <= 8 * unit size; (3) clang offsets otherwise (unions): witness of known finding F7",
             "bindgen/ir/comp.rs: CompInfo::is_packed (whether bit-fields are allocated with packed rules; callback iteration desugared by rule R16)",
             "bindgen/codegen/struct_layout.rs: StructLayoutTracker::pad_to_bitfield_unit, saw_bitfield_unit (unit layout; the unit lands at the clang offset of its first bit-field)",
+            "bindgen/codegen/mod.rs: the accessor-emitting statement of <Bitfield as FieldCodegen>::codegen and Bitfield::extend_ctor_impl (unit bf_accessors, rule R4q): getter, setter, raw getter, raw setter (wrapper-union and const-generic forms) and the constructor step all address the bit-field's own unit field, offset_into_unit and width, in that order",
             "bindgen/codegen/mod.rs: the unit-start closure of <BitfieldUnit as FieldCodegen>::codegen (unit bf_unit_start, rule R18 brace-less closure: unit start = clang offset of the field - its offset into the unit)",
         ],
         "extraction": [prep],
@@ -53,7 +56,7 @@ def c03(tier, seed):
         ],
         "unverified": [
             "ir/comp.rs bitfields_to_allocation_units in the clang-offset mode; raw_fields_to_fields_and_bitfield_units (grouping of consecutive bit-fields)",
-            "codegen/mod.rs accessor emission: cast chain, transmute, sign extension of signed bit-fields; that the unit-start closure is applied to the unit's FIRST bit-field (`bfields.first()`, slice API outside the extracted closure)",
+            "codegen/mod.rs accessor emission: the cast chain / transmute inside the templates (sign extension of signed bit-fields is NOT performed: observed), the names of the accessors; that the unit-start closure is applied to the unit's FIRST bit-field (`bfields.first()`, slice API outside the extracted closure)",
             "big-endian branches; 32-bit usize fast path",
         ],
     }
@@ -74,7 +77,9 @@ def c14(tier, seed):
     obs += ro
     eo, ecmd, elog, _ = units_verus.run_unit("edition")
     obs += eo
-    cmd = cmd + " ; " + vcmd + " ; " + scmd + " ; " + rcmd + " ; " + ecmd
+    go, gcmd, glog, _ = units_verus.run_unit("gates")
+    obs += go
+    cmd = cmd + " ; " + vcmd + " ; " + scmd + " ; " + rcmd + " ; " + ecmd + " ; " + gcmd
     prep = [prep] + [dict(l, unit="fn_abi") for l in vlog] + [dict(l, unit="var_string") for l in slog]
     meta = {
         "checker_cmd": cmd,
@@ -86,6 +91,7 @@ def c14(tier, seed):
             "bindgen/ir/function.rs: FunctionSig::abi, FunctionSig::is_variadic (Verus unit fn_abi: the ABI gating site; override lookup = one uninterpreted accessor)",
             "bindgen/lib.rs: the feature-synchronisation / edition-validation expression of Builder::generate (Verus unit edition, block extracted by rule R18): unsupported edition -> BindgenError::UnsupportedEdition, otherwise RustFeatures::new(target, edition) / new_with_latest_edition(target)",
             "bindgen/codegen/helpers.rs: ast_ty::raw_type (Verus unit raw_type: ::core::ffi::X only when core_ffi_c)",
+            "bindgen/codegen/mod.rs: the `let safety = ..` statements of <Var as CodeGenerator>::codegen and <Function as CodeGenerator>::codegen (Verus unit gates, let-statements extracted by rule R18): `unsafe extern` exactly when the target has unsafe_extern_blocks",
             "bindgen/codegen/mod.rs: the VarType::String arm of <Var as CodeGenerator>::codegen (Verus unit var_string: block extracted by rule R18; each token template is an env constructor recording the gated feature its text uses) + BindgenContext::trait_prefix",
         ],
         "extraction": [{"mode": "path", "file": "bindgen/features.rs", "rewrites": 0}] + prep,
@@ -94,7 +100,7 @@ def c14(tier, seed):
             "RustTarget::from_str and RustTarget::default() (rustc --version probing) are not under contract",
         ],
         "unverified": [
-            "that the remaining code-generation sites consult their flag (codegen/mod.rs unsafe_extern_blocks / offset_of / ptr_metadata / layout_for_ptr): only FunctionSig::abi, raw_type and the string-constant arm are under contract",
+            "that the remaining code-generation sites consult their flag (codegen/mod.rs ptr_metadata / layout_for_ptr of the flexible-array helpers; offset_of is read by the layout-assertion units of C06): FunctionSig::abi, raw_type, the string-constant arm and the two `unsafe extern` sites are under contract",
             "RustTarget::default() (rustc --version probing)",
         ],
     }
@@ -163,7 +169,7 @@ def _verus_prop(prop, tier, seed, unit_filters, meta_extra, extra_obs=None):
 
 
 def c02(tier, seed):
-    return _verus_prop("C02", tier, seed, [("layout", None, None), ("prim_types", None, None), ("packed", None, None), ("repr", None, None), ("clang_layout", None, None)], {
+    return _verus_prop("C02", tier, seed, [("layout", None, None), ("prim_types", None, None), ("packed", None, None), ("repr", None, None), ("clang_layout", None, None), ("union_repr", None, None)], {
         "trusted_base": LAYOUT_TRUST,
         "functions_under_contract": LAYOUT_FNS + [
             "bindgen/codegen/helpers.rs: ast_ty::int_kind_rust_type, ast_ty::float_kind_rust_type (unit prim_types: fixed-width kinds get a Rust integer of the same width and sign; platform kinds the std::os::raw alias documented as equivalent; wchar_t / long double / __float128 a type of exactly the C size)",
@@ -171,6 +177,7 @@ def c02(tier, seed):
             "bindgen/codegen/mod.rs: the tail of CompInfo::codegen that completes size and alignment (unit layout, statements extracted by rule R18 and verified against the contracts of pad_struct / requires_explicit_align / blob): an opaque record is one blob of exactly the C size/alignment with repr(align); a struct gets the padding of the size theorem appended in place and repr(align(N)) (packed for N == 1) whenever its fields under-align; a non-Rust union is one blob of exactly the C size/alignment; and the realisation of the explicit alignment (repr(align(N)), or a leading zero-length array of a primitive whose alignment is exactly N for bit-field records with N <= 8)",
             "bindgen/clang.rs: Cursor::offset_of_field, Type::{clang_size_of, clang_align_of, size, align, fallible_size, fallible_align, fallible_layout} (unit clang_layout: the numbers handed to the IR are libclang's 64-bit values, unchanged, for every non-negative value; negative codes are errors; the two documented work-arounds)",
             "bindgen/codegen/mod.rs: utils::type_from_named (unit prim_types: the <stdint.h>/<stddef.h> typedef names map to the Rust primitive of the same width and signedness)",
+            "bindgen/ir/comp.rs: CompInfo::is_rust_union and bindgen/codegen/mod.rs: wrap_union_field_if_needed (unit union_repr): a Rust `union` only for defined unions with --untagged-union whose members are all Copy or may be ManuallyDrop-wrapped; in it every member keeps the size/alignment of its C type; otherwise members are zero-sized markers over the blob of the tail statement",
             "bindgen/ir/comp.rs: CompInfo::already_packed (unit packed: Some(true) exactly when dropping `packed` moves no field), CompInfo::is_packed (attribute, or a member more aligned than the record, or a vtable in a 1-aligned record)"],
         "assumptions": [
             "placement theorem (saw_field_with_layout post#4) region: not packed, not a union, clang reported the field offset (multiple of 8 bits, >= running offset, multiple of the field alignment), the Rust struct built so far ends at the tracker's running offset and that is a multiple of the previous field's alignment; the Rust type of the field has the alignment clang reports",
@@ -186,14 +193,16 @@ def c02(tier, seed):
 
 
 def c10(tier, seed):
-    return _verus_prop("C10", tier, seed, [("layout", r"::(blob|Layout::known_type_for_size|Layout::for_size_internal|Layout::for_size|integer_type|bitfield_unit|Layout::new|align_to|comp_tail_layout)::", None), ("opaque", None, None), ("vouch", None, None),
+    return _verus_prop("C10", tier, seed, [("layout", r"::(blob|Layout::known_type_for_size|Layout::for_size_internal|Layout::for_size|integer_type|bitfield_unit|Layout::new|align_to|comp_tail_layout)::", None), ("opaque", None, None), ("vouch", None, None), ("prim_types", r"::(BindgenContext::is_stdint_type|type_from_named)::", None),
                                            ("constrain", r"::CannotDerive::constrain_type::", None), ("blocklist", None, None), ("repr", None, None)], {
         "trusted_base": LAYOUT_TRUST,
         "functions_under_contract": ["bindgen/codegen/helpers.rs: blob, integer_type, bitfield_unit", "bindgen/ir/layout.rs: Layout::{known_type_for_size, new, for_size_internal, for_size}",
+                                     "bindgen/codegen/mod.rs: Item::process_before_codegen and <Item as CodeGenerator>::codegen (unit blocklist): nothing at all is emitted for a blocklisted item, for an item disabled for code generation, or a second time for the same item - whatever the per-kind generators would do",
                                      "bindgen/ir/item.rs: Item::is_blocklisted; <Item as IsOpaque>::is_opaque, <Type as IsOpaque>::is_opaque (unit opaque: opaque exactly by annotation, by an --opaque-type name match, or through the type: Opaque kind, opaque instantiation / compound / referenced type)",
                                      "bindgen/codegen/mod.rs: the tail of CompInfo::codegen (unit layout, statement R18): an opaque record with a known layout gets exactly one field, a blob of exactly the C size and alignment, and repr(align)",
                                      "bindgen/codegen/mod.rs: the `packed` decision of CompInfo::codegen (an opaque blob never carries `packed` next to its repr(align))",
                                      "bindgen/ir/context.rs: the two nested closures of BindgenContext::blocklisted_type_implements_trait (unit vouch, R18): a trait is derivable through a blocklisted type only when somebody vouched - bindgen itself for the <stdint.h> names when no callback is registered, otherwise the user's callback; no name or no answer means No",
+                                     "bindgen/ir/context.rs: BindgenContext::is_stdint_type and bindgen/codegen/mod.rs: utils::type_from_named (unit prim_types): the names bindgen vouches for itself are exactly the <stdint.h>/<stddef.h> names it maps to a primitive whether or not they are blocklisted",
                                      "bindgen/ir/analysis/derive.rs: CannotDerive::constrain_type (first rule: an item outside the allowlisted set gets exactly what blocklisted_type_implements_trait says, before any other rule)"],
         "assumptions": [
             "blocklist test (Item::is_blocklisted == hidden || in a blocklisted file || generic item list || the list of its own kind || replaced type), with regex matching and path computation uninterpreted",
@@ -201,7 +210,7 @@ def c10(tier, seed):
             "opaque-blob half of C10: for every Layout with size % max(align,1) == 0 (what libclang reports for a complete type) the emitted blob type has exactly that size and alignment (blob post#0-#2), on both the ffi_safe and the padding path",
         ],
         "unverified": [
-            "that every codegen entry point consults is_blocklisted (Item::process_before_codegen), IsOpaque, that opaque items stop tracing, the body of blocklisted_type_implements_trait (IR/regex-bound): 'never defined yet still named' is not decided",
+            "that the per-kind generators are reached only through <Item as CodeGenerator>::codegen (Method::codegen_method calls process_before_codegen itself), IsOpaque, that opaque items stop tracing, the body of blocklisted_type_implements_trait (IR/regex-bound): 'never defined yet still named' is not decided",
         ]})
 
 
@@ -216,10 +225,11 @@ def _from_str_witnesses():
 def c12(tier, seed):
     units = [("gen_errors", None, None), ("layout", None, r"^(safety|decreases.*)$"), ("bf_alloc", None, r"^(safety|decreases.*)$"), ("macro_type", None, r"^safety$"),
              ("edges", None, r"^safety$"), ("derive_gate", None, r"^safety$"), ("derives", None, r"^safety$"), ("fn_abi", None, r"^(safety|post#3)$"), ("constrain", None, r"^safety$"), ("prim_types", None, r"^safety$"), ("packed", None, r"^(safety|decreases.*)$"), ("blocklist", None, r"^safety$"), ("has_float", None, r"^safety$"), ("has_tp_array", None, r"^safety$"), ("has_destructor", None, r"^safety$"), ("lattice_insert", None, r"^safety$"),
-             ("lattice_constrain", r"::constrain::", r"^safety$"), ("link_name", r"::names_will_be_identical_after_mangling::", r"^safety$"), ("eval_int", None, r"^safety$"), ("bf_unit_start", None, r"^safety$"), ("char_macro", None, r"^safety$"), ("clang_layout", None, r"^safety$"), ("traversal", None, r"^safety$"), ("trace_impls", None, r"^safety$")]
+             ("lattice_constrain", r"::constrain::", r"^safety$"), ("link_name", r"::names_will_be_identical_after_mangling::", r"^safety$"), ("eval_int", None, r"^safety$"), ("bf_unit_start", None, r"^safety$"), ("resolver", None, None), ("char_macro", None, r"^safety$"), ("clang_layout", None, r"^safety$"), ("traversal", None, r"^safety$"), ("trace_impls", None, r"^safety$")]
     return _verus_prop("C12", tier, seed, units, {
         "trusted_base": LAYOUT_TRUST + ["alloc::fmt::format stubbed in the from_str witness harnesses (message text irrelevant)"],
         "functions_under_contract": ["bindgen/lib.rs: the input-path checks of Bindings::generate (missing -> NotExist, directory -> FolderAsHeader, unreadable -> InsufficientPermissions; file system uninterpreted) and the per-diagnostic step of parse() (severity Error or Fatal -> ClangDiagnostic error) -- blocks extracted by rule R18, unit gen_errors"] + LAYOUT_FNS + ["bindgen/ir/comp.rs: bitfields_to_allocation_units (no-clang-offset mode)", "and the functions of units macro_type, edges, derive_gate, derives, fn_abi (see C05, C07-C09, C14)",
+                                     "bindgen/ir/context.rs: ItemResolver::resolve (unit resolver): the reference/alias-following loop TERMINATES on every finite IR, cyclic or not (decreases: items not yet seen), never indexes outside the item table, and returns an item of the table",
                                      "bindgen/ir/function.rs: FunctionSig::abi never accepts an ABI that cannot be printed (ClangAbi::Unknown -> UnsupportedAbi; found and repaired F11: Function::codegen and <ClangAbi as ToTokens> panicked on it); bindgen/ir/var.rs: the character-literal arm of Var::parse (found and repaired F10)",
                                      "bindgen/codegen/mod.rs: utils::names_will_be_identical_after_mangling (every slice index / range in bounds, for all name lengths); bindgen/ir/analysis/{has_vtable,sizedness}.rs: constrain (the two unreachable!() arms of SizednessAnalysis::constrain are unreachable given 'TypeKind::Opaque types are opaque' and 'no UnresolvedTypeRef after parsing'); clang::EvalResult::as_int; the bit-field unit-start closure (no underflow given offset_into_unit <= offset)"],
         "assumptions": [
@@ -239,17 +249,18 @@ INCRATE_TRUST = ["in-crate harness modules pulled in by cfg(kani) hook lines; Ty
 def c04(tier, seed):
     def extra():
         return units_incrate.run_spec(units_incrate.abi_spec())
-    return _verus_prop("C04", tier, seed, [("fnsig", None, None), ("ptr_lowering", None, None), ("fn_abi", r"::FunctionSig::(abi|is_variadic)::", None), ("link_name", None, None)], {
+    return _verus_prop("C04", tier, seed, [("fnsig", None, None), ("ptr_lowering", None, None), ("fn_abi", r"::FunctionSig::(abi|is_variadic)::", None), ("link_name", None, None), ("method_wrapper", None, None)], {
         "trusted_base": INCRATE_TRUST + ["calling-convention oracle: clang-c/Index.h CXCallingConv values x Rust reference ABI strings (kani_incrate/function_abi.rs)"],
         "functions_under_contract": ["bindgen/ir/function.rs: get_abi (Kani in-crate), FunctionSig::abi, FunctionSig::is_variadic (Verus unit fn_abi)",
                                      "bindgen/codegen/mod.rs: utils::fnsig_argument_type, utils::fnsig_return_ty_internal (Verus unit fnsig); the Pointer/Reference arm of <Type as TryToRustTy>::try_to_rust_ty (Verus unit ptr_lowering, block extracted by rule R18)",
+                                     "bindgen/codegen/mod.rs: the receiver and constructor statements of Method::codegen_method (Verus unit method_wrapper, statements R18): the C++ `this` argument becomes `&self` (const method) or `&mut self`; static methods and constructors get no receiver; a constructor drops `this` and returns Self",
                                      "bindgen/codegen/mod.rs: utils::names_will_be_identical_after_mangling (Verus unit link_name, all name lengths; std str/slice operations replaced by Seq-specified env functions, rule R21)"],
         "assumptions": ["get_abi: every u32 CXCallingConv value (loop-free, full domain)",
                         "FunctionSig::abi: the ABI emitted is the --override-abi match if any, else what clang reported, or an error; never something else",
                         "pointer lowering: wrong-sized pointer types are an error; a pointer to (a typedef of) a function type or to an ObjC interface adds no pointer level; C++ references become NonNull when asked; every other pointee gets *const/*mut by the pointee's constness",
                         "link_name omission: #[link_name] is omitted exactly when the compiler's symbol is the Rust name itself or its platform decoration for the calling convention (`_name`; `_name@N` stdcall; `@name@N` fastcall), the decoration table transcribed from the Microsoft decorated-names / Mach-O conventions; slice indexing in the function never goes out of bounds",
                         "argument lowering: array parameters decay to a pointer to the element (const iff element or array is const), ObjC interface pointers are named, everything else keeps its type; return lowering: noreturn -> !, void (through typedefs) -> (), else the type. The type tokens themselves (to_rust_ty_or_opaque) are uninterpreted",],
-        "unverified": ["cursor_mangling / mangled names from libclang; the call sites of names_will_be_identical_after_mangling (Function::codegen, Var::codegen) and whether rustc decorates as the table says; the other arms of try_to_rust_ty; fnsig_arguments_iter naming; Method::codegen_method; merge_extern_blocks (seed S06 missed); ABI classification by rustc/LLVM vs clang"],
+        "unverified": ["cursor_mangling / mangled names from libclang; the call sites of names_will_be_identical_after_mangling (Function::codegen, Var::codegen) and whether rustc decorates as the table says; the other arms of try_to_rust_ty; fnsig_arguments_iter naming; the rest of Method::codegen_method (MaybeUninit protocol, name de-duplication); merge_extern_blocks (seed S06 missed); ABI classification by rustc/LLVM vs clang"],
     }, extra_obs=extra)
 
 
@@ -260,10 +271,12 @@ def c05(tier, seed):
                          "env/eval_int_env.rs: each libclang evaluator entry point is a distinct uninterpreted function of the result handle (rule R20: `unsafe { f(x) }` -> `{ f(x) }`, FFI functions are safe stubs); an out-of-range `u64 as i64` cast is the same (unspecified but fixed) function on both sides of the contract"],
         "functions_under_contract": ["bindgen/ir/var.rs: default_macro_constant_type", "bindgen/ir/int.rs: IntKind::is_signed, IntKind::known_size",
                                      "bindgen/clang.rs: EvalResult::kind, EvalResult::as_int (which libclang getter supplies the value of a const initialiser / fallback macro); Cursor::enum_val_signed / enum_val_unsigned / enum_val_boolean (enumerator values: the getter matching the signedness)",
+                                     "bindgen/codegen/mod.rs: the repr-translation statement of <Enum as CodeGenerator>::codegen (unit macro_type, let-statement R18): the translated integer type has the enum's width and signedness",
+                                     "bindgen/ir/enum_ty.rs: the value-selection statement of Enum::from_ty (let-statement, R18): bool enums their truth value, signed enums the signed getter, unsigned enums the unsigned getter",
                                      "bindgen/ir/var.rs: the character-literal arm of Var::parse (unit char_macro, block R18): the constant is the literal's byte value as u8; an escape that does not fit is omitted (found and repaired F10: it panicked)",
                                      "bindgen/codegen/mod.rs: the integer-literal arm of <Var as CodeGenerator>::codegen (block, R18): the literal denotes the value in the signedness of the variable's C type"],
         "assumptions": ["all i64 macro values, both option reads uninterpreted: the chosen kind holds the value, has the sign the property demands, is the narrowest such kind under fit-macro-constant-types and 32/64 bit otherwise"],
-        "unverified": ["cexpr macro evaluation, libclang's evaluator itself, EvalResult::new, the clang-macro-fallback plumbing; Enum::from_ty's choice between the signed and unsigned getter; Enum::codegen repr translation and EnumBuilder; float_expr; proc_macro2::Literal printing"],
+        "unverified": ["cexpr macro evaluation, libclang's evaluator itself, EvalResult::new, the clang-macro-fallback plumbing; how Enum::from_ty derives is_signed/is_bool from the underlying type; how Enum::codegen obtains (signed, size) and EnumBuilder; float_expr; proc_macro2::Literal printing"],
     })
 
 
@@ -312,7 +325,7 @@ def c08(tier, seed):
         return units_incrate.run_spec(units_incrate.derive_tables_spec())
     return _verus_prop("C08", tier, seed, [("derive_gate", None, None), ("derives", None, None), ("constrain", None, None), ("fn_abi", r"function_pointers_can_derive", None),
                                            # the float exclusion for Eq/Ord and the derive analysis' own subscriptions are C08 mechanisms too
-                                           ("edges", r"::(has_float_consider_edge|consider_edge_default)::", None), ("has_float", None, None)], {
+                                           ("edges", r"::(has_float_consider_edge|consider_edge_default)::", None), ("has_float", None, None), ("union_repr", r"::CompInfo::is_rust_union::", None)], {
         "trusted_base": INCRATE_TRUST + ["env/derive_gate_env.rs: uninterpreted options and analysis lookups; generic impl<T> instantiated at T = ItemId",
                                         "rule-table oracle written from the property statement (kani_incrate/derive_tables.rs)"],
         "functions_under_contract": ["bindgen/ir/context.rs: the eight impl<T> CanDerive{Debug,Default,Copy,Hash,PartialOrd,PartialEq,Eq,Ord} for T bodies",
